@@ -18,7 +18,7 @@
     `solution_in_initial_box`: `E ⊆` initial box is `Box.subset` (sound for all reals);
   * unknown boxes: `unknown_small_iff`, `unknown_small_dist`;  status: `status_success`, `status_infeasible`.
 -/
-import IbexProofs.Props.C09
+import IbexProofs.Props.C09exist
 import IbexProofs.Props.C05
 
 namespace Ibex.C06
@@ -190,6 +190,42 @@ theorem claim_of_known_zero {eqs : List (List Dag × Dag)} {e u : Box} {p : List
   have hl := (ratIn_iff.1 hpe).length_eq
   rw [List.getElem?_eq_none (by omega), List.getElem?_eq_none (by rw [hπ.1]; omega)]
 
+
+/-- the model's `pointConsts` is the one of the C09 theorems -/
+theorem pointConsts_eq (eqs : List (List Dag × Dag)) : Verdict.pointConsts eqs = C09.pointConsts eqs := rfl
+
+/-- **full certificate** (no known zero needed; square or under-constrained): the Krawczyk existence
+    certificate holds on a box `x ⊆ E` with the parameter ranges of `E`, `E ⊆ U`, uniqueness certificate on `U`:
+    every parameter value of `E` is completed by exactly one zero in `E`, and `U` contains no other -/
+theorem claim_of_certifiedBy {eqs : List (List Dag × Dag)} {e u : Box} {vars : List ℕ} {x : Box}
+    (h : certifiedBy eqs e u vars x = true) : SolClaim eqs e u vars := by
+  simp only [certifiedBy, Bool.and_eq_true, beq_iff_eq, List.all_eq_true, List.mem_range,
+    Bool.or_eq_true, List.contains_iff_mem] at h
+  obtain ⟨⟨⟨⟨⟨⟨hpc, hex⟩, hxe⟩, heu⟩, hun⟩, hlen⟩, hpar⟩ := h
+  refine claim_of_certificates heu hun fun π hπ => ?_
+  have hπx : ∀ i t I, i ∉ vars → π[i]? = some t → x[i]? = some I → t ∈ I := by
+    intro i t I hi ht hI
+    have hlt : i < e.length := by
+      have := (List.getElem?_eq_some_iff.1 hI).1
+      omega
+    rcases hpar i hlt with h1 | h1
+    · exact absurd h1 hi
+    · rw [hI] at h1
+      cases hE : e[i]? with
+      | none => rw [hE] at h1; cases h1
+      | some J =>
+        rw [hE] at h1
+        exact Itv.mem_of_subset h1 (hπ.2 i t J hi ht hE)
+  obtain ⟨z, hz, hzp, hz0⟩ := exists_zero_of_cert ((pointConsts_eq eqs).symm.trans hpc) hex π
+    (hπ.1.trans hlen.symm) hπx
+  exact ⟨z, Box.subset_sound hxe hz, hzp, hz0⟩
+
+/-- the search `findCert` only returns checked candidates -/
+theorem claim_of_findCert {eqs : List (List Dag × Dag)} {e u : Box} {vars : List ℕ} {tries k : ℕ}
+    (h : findCert eqs e u vars tries = some k) : SolClaim eqs e u vars := by
+  have := List.find?_some h
+  exact claim_of_certifiedBy this
+
 /-- a solution box accepted by `Box.subset e root` lies in the initial box -/
 theorem solution_in_initial_box {e root : Box} (h : Box.subset e root = true) {p : List ℝ}
     (hp : Box.Mem p e) : Box.Mem p root := Box.subset_sound h hp
@@ -241,6 +277,8 @@ example : ¬ SolClaim [([], sq4)] [I (15/8) (17/8)] [I (-3) 3] [0] :=
   refuted_sound (zs := [[2], [-2]]) (by decide +kernel)
 /-- an "existence box" `[−3, 3]` with two zeros: refuted -/
 example : refuted [([], sq4)] [I (-3) 3] [I (-3) 3] [0] [[2], [-2]] = true := by decide +kernel
+/-- the same solution certified without any known zero (Krawczyk existence + regular Jacobian) -/
+example : findCert [([], sq4)] [I (15/8) (17/8)] [I 1 3] [0] 3 = some 0 := by decide +kernel
 /-- nothing is refuted for the correct boxes -/
 example : refuted [([], sq4)] [I (15/8) (17/8)] [I 1 3] [0] [[2], [-2]] = false := by decide +kernel
 
